@@ -10,7 +10,12 @@ import MlModel.Model.PipeLib
 * **F-C12-passed-on** — a skippable error that reaches `Assign` from upstream (here: the data
   source) makes `processed_with_inputs` pop an input that was never buffered:
   `IndexError('No element left')`; an `apply` in the same place skips the element.
-Both instances are replayed on the real code by `harness/corpus/C12_findings.jsonl`.
+* **F-C12-fnbatch-lost** — `apply(..., fn_batch_size=2, batch_size=2)` with error skipping over five
+  records of which the third does not carry a column (`v = 5`): `_batch_size(5)` raises `TypeError`
+  *inside* the first `rebatched_args` generator, `map_ignore_error` swallows it, the finalised
+  generator answers `StopIteration`: one record arrives, the two records behind the bad one are
+  silently lost, no error.  With `fn_batch_size=0` the bad record alone is skipped.
+All instances are replayed on the real code by `harness/corpus/C12_findings.jsonl`.
 -/
 namespace MlModel.C12
 open MlModel.Pipe MlModel.Iter MlModel.Pipe.Lib
@@ -55,5 +60,32 @@ theorem C12_passed_on_witness :
   intro h
   have := h { kind := .value } (by simp [rec3])
   simp [terminal, Err.ignorable] at this
+
+/-- the integers of the one column of a record `{key: [..]}` -/
+def oInts : Val → List Int
+  | .dict [(_, .list xs)] => xs.filterMap fun x => match x with | .int i => some i | _ => none
+  | _ => []
+
+def colOrBad (i : Nat) : Val :=
+  if i = 2 then .dict [("v", .int 5)] else .dict [("v", .list [.int (Int.ofNat i)])]
+
+def fiveCols : List (Ev Val) := (List.range 5).map fun i => .ok (colOrBad i)
+
+/-- `apply(v_add1, input_keys='v', output_keys='o', fn_batch_size=fb, batch_size=2)` -/
+def applyAdd1 (fb : Nat) : Op :=
+  { kind := .apply, inKeys := [.name "v"], outKeys := [.key (.name "o")],
+    fn := NamedFn.vAdd1.toUFn, fnBatch := fb, batch := 2 }
+
+/-- F-C12-fnbatch-lost: with `fn_batch_size = 2` only the rows before the bad record arrive (one
+record) and the run ends without an error — rows 3 and 4 are silently lost; with `fn_batch_size = 0`
+the bad record alone is skipped and all four good rows arrive (two records).  The side condition
+`BatchedOK.clean` of the batched theorems fails on this stream. -/
+theorem C12_fnbatch_lost_witness :
+    (Impl.run true [applyAdd1 2] fiveCols).out.map oInts = [[1, 2]] ∧
+    (Impl.run true [applyAdd1 2] fiveCols).err = none ∧
+    (Impl.run true [applyAdd1 0] fiveCols).out.map oInts = [[1, 2], [4, 5]] ∧
+    (Impl.run true [applyAdd1 0] fiveCols).err = none ∧
+    Ref.batchedOKB true (applyAdd1 2) 0 fiveCols = false := by
+  decide +kernel
 
 end MlModel.C12
